@@ -245,6 +245,10 @@ pub fn expect_for(mode: SizeMode, verify_version: bool, frame: &[u8]) -> Expect 
                 (Some(_), Some(w)) => Some(w),
                 (v, _) => v,
             };
+            // likewise a keep-alive is a TINY whose request id and sub-type bytes are both zero
+            // on the wire (IS_TINY: Size, Type = 3, ReqI, SubT); a decoder that turns some other
+            // TINY into "sub-type none" does not make it one
+            let keepalive = keepalive && !(frame.len() >= 4 && frame[1] == 3 && (frame[2] != 0 || frame[3] != 0));
             if verify_version {
                 if let Some(v) = ver {
                     if v != 9 {
